@@ -241,6 +241,47 @@ def fold(chk: Check, sub: Check, rename, keep=lambda rule: True):
             chk.samples.append(dict(sm, rule=rename(sm["rule"])))
 
 
+def second_opinion(mod, chk: Check):
+    """Rules that fail on the program as written are re-evaluated on two normalised views (inline.py): (A) freshly extracted
+    helper functions — functions that are not in the reviewed reference list tables/functions.txt — inlined into their callers,
+    (B) the same helpers kept but attributed to their caller's region, (C) like A with directly called local closures inlined as well.  A violation is kept only if its rule is also violated
+    in every view; violations that are literally identical in a view (same rule and key) are unaffected by the normalisation."""
+    import facts
+    P = {(v.rule, v.key) for v in chk.violations}
+    verdicts = []
+    notes = {}
+    for mode in ("inline", "rehome", "inline-closures"):
+        sub = Check(chk.pid, chk.tier)
+        facts.NORMALISE = mode
+        try:
+            mod.run(sub)
+        except Exception as e:           # this view could not be evaluated: it gives no opinion
+            notes[mode] = f"not evaluated: {type(e).__name__}: {str(e)[:160]}"
+            continue
+        finally:
+            facts.NORMALISE = False
+        N = {(v.rule, v.key) for v in sub.violations}
+        common = P & N
+        moved_rules = {r for (r, k) in N - common}
+        verdicts.append((common, moved_rules))
+        notes[mode] = {"violations": len(N)}
+    keep, dropped = [], []
+    for v in chk.violations:
+        if verdicts and any((v.rule, v.key) not in common and v.rule not in moved for common, moved in verdicts):
+            dropped.append(v)
+        else:
+            keep.append(v)
+    for v in dropped:
+        chk.discharged += 1
+        r = chk.rules.setdefault(v.rule, {"what": "", "obligations": 0, "discharged": 0})
+        r["discharged"] += 1
+        if sum(1 for s_ in chk.samples if s_.get("verdict") == "discharged-on-normalised-view") < 6:
+            chk.samples.append({"rule": v.rule, "key": v.key, "verdict": "discharged-on-normalised-view", "site": v.where})
+    chk.violations = keep
+    chk.notes["normalised_views"] = {"violations_as_written": len(P), **notes,
+                                     "discharged_by_normalisation": [f"{v.rule}|{v.key}" for v in dropped][:20]}
+
+
 def load_known():
     p = os.path.join(VERIF, "known_findings.json")
     if not os.path.exists(p):
